@@ -29,6 +29,8 @@ PY = sys.executable
 REGISTRY = {
     "C01": ("codec", "run_c01"),
     "C02": ("codec", "run_c02"),
+    "C03": ("gateway", "run_c03"),
+    "C18": ("mqtt", "run_c18"),
 }
 
 ALLOWED_AXIOMS = {"propext", "Classical.choice", "Quot.sound"}
@@ -58,7 +60,9 @@ def lean_sources():
         for f in files:
             if f.endswith(".lean"):
                 yield os.path.join(root, f)
-    yield os.path.join(LEAN, "Driver.lean")
+    for f in sorted(os.listdir(LEAN)):
+        if f.startswith("Driver") and f.endswith(".lean"):
+            yield os.path.join(LEAN, f)
 
 
 def theorem_spans(path: str):
